@@ -79,6 +79,7 @@ class GetDescriptorHandlerDistributed(Elaboratable):
 
         # Collection that will store each of our descriptor-generation submodules.
         descriptor_generators = {}
+        descriptor_lengths    = {}
 
         #
         # Figure out the maximum length we're willing to send.
@@ -108,6 +109,11 @@ class GetDescriptorHandlerDistributed(Elaboratable):
                 generator = raw_descriptor()
             descriptor_generators[(type_number, index)] = generator
 
+            # For fixed descriptors, remember the descriptor's length, so we can tell when a request
+            # starts past its end. (The length of a runtime descriptor isn't known here.)
+            if isinstance(raw_descriptor, bytes):
+                descriptor_lengths[(type_number, index)] = len(raw_descriptor)
+
             m.d.comb += [
                 generator.max_length     .eq(length),
                 generator.start_position .eq(self.start_position)
@@ -122,6 +128,10 @@ class GetDescriptorHandlerDistributed(Elaboratable):
         # Connect up each of our generators.
         #
 
+        # Strobe that indicates we should answer the current request with a zero-length packet.
+        send_zlp = Signal()
+        m.d.usb += send_zlp.eq(0)
+
         with m.Switch(self.value):
 
             # Generate a conditional interconnect for each of our items.
@@ -132,11 +142,30 @@ class GetDescriptorHandlerDistributed(Elaboratable):
 
                     # ... connect the relevant generator to our output.
                     m.d.comb += generator.stream  .attach(self.tx)
-                    m.d.usb += generator.start    .eq(self.start),
+
+                    # Our start position may point just past the end of the descriptor, in case its length
+                    # is a multiple of the maximum packet size. The stream generator can't represent that
+                    # position (it would wrap around or get stuck on its last byte); so instead of starting
+                    # it we send a single ZLP, so the host knows the previous packet was the last one.
+                    if (type_number, index) in descriptor_lengths:
+                        past_end = (self.start_position >= descriptor_lengths[(type_number, index)])
+                        m.d.usb += [
+                            generator.start  .eq(self.start & ~past_end),
+                            send_zlp         .eq(self.start &  past_end),
+                        ]
+                    else:
+                        m.d.usb += generator.start  .eq(self.start),
 
             # If none of our descriptors match, stall any request that comes in.
             with m.Default():
                 m.d.comb += self.stall.eq(self.start)
+
+        # Pulse `last` without `first` to indicate a ZLP.
+        with m.If(send_zlp):
+            m.d.comb += [
+                self.tx.valid  .eq(1),
+                self.tx.last   .eq(1),
+            ]
 
 
         return m
